@@ -13,7 +13,7 @@
    applied behind complete option fields.  [Malformed specs m args d]: after
    complete option fields comes a field with defect d (unknown, ambiguous,
    missing argument, unexpected argument, disabled by the portable mode). *)
-From Yv Require Import Common.Base C20.Model C20.Spec C20.Tables C20.Proofs.
+From Yv Require Import Common.Base C20.Model C20.Spec C20.Tables C20.Getopts C20.Proofs.
 
 (* -- accepts every spelling, and only those ------------------------------------ *)
 
@@ -151,6 +151,31 @@ Theorem gen_specs_every_option_reachable : forall name t i s,
   /\ (sp_short s <> None \/ sp_long s <> None).
 Proof. exact gen_tables_reachable. Qed.
 
+(* -- the getopts built-in (model of getopts/model.rs `next`, called in a loop) ----- *)
+
+(* the loop that re-enters `next` with the $OPTIND indices never runs out of
+   fuel and delivers the structural reading of the arguments *)
+Theorem getopts_loop_is_structural_reading : forall raw args,
+  getopts_run raw args = Some (gobserved (gdirect raw (starts_with_colon raw) 1 args)).
+Proof. exact getopts_run_observed. Qed.
+
+Theorem getopts_loop_terminates : forall raw args, getopts_run raw args <> None.
+Proof. exact getopts_run_total. Qed.
+
+(* -xy... = -x -y... for a letter x that takes no argument, known or UNKNOWN:
+   same ($name, $OPTARG) sequence, operands and stderr-emptiness *)
+Theorem getopts_grouped_options : forall raw c cs rest,
+  judge raw c <> GTakesArg -> c <> HYPHEN -> cs <> [] -> cs <> [HYPHEN] ->
+  gvisible (getopts_run raw ((HYPHEN :: c :: cs) :: rest)) =
+  gvisible (getopts_run raw ([HYPHEN; c] :: (HYPHEN :: cs) :: rest)).
+Proof. exact getopts_group_split. Qed.
+
+Theorem getopts_attached_argument : forall raw c a rest,
+  judge raw c = GTakesArg -> c <> HYPHEN -> a <> [] ->
+  gvisible (getopts_run raw ((HYPHEN :: c :: a) :: rest)) =
+  gvisible (getopts_run raw ([HYPHEN; c] :: a :: rest)).
+Proof. exact getopts_attached. Qed.
+
 Print Assumptions parse_iff_spells.
 Print Assumptions spellings_agree.
 Print Assumptions spells_functional.
@@ -176,3 +201,7 @@ Print Assumptions oracle_exact.
 Print Assumptions unambiguous_table_reachable.
 Print Assumptions gen_specs_unambiguous.
 Print Assumptions gen_specs_every_option_reachable.
+Print Assumptions getopts_loop_is_structural_reading.
+Print Assumptions getopts_loop_terminates.
+Print Assumptions getopts_grouped_options.
+Print Assumptions getopts_attached_argument.
